@@ -348,11 +348,13 @@ class RealFloat(numbers.Rational):
                 other = RealFloat.from_int(other)
             case float():
                 if math.isnan(other) or math.isinf(other):
-                    # Convert self to float and perform float arithmetic
+                    if math.isinf(other) and self._c == 0:
+                        # IEEE 754: 0 * inf is invalid
+                        return math.nan
                     other_sgn = math.copysign(1.0, other) # extract the sign bit
                     s = self._s != (other_sgn < 0)
                     res_sgn = -1.0 if s else 1.0
-                    return other * res_sgn
+                    return abs(other) * res_sgn
                 else:
                     other = RealFloat.from_float(other)
             case Fraction():
